@@ -20,6 +20,7 @@ EXPLANATION = (
     "d - 1 for d admitted by 0 < d <= NUM_BUCKETS) and NUM_BUCKETS = 256. R4: all three closest_* constructors share "
     "ClosestIter over ClosestBucketsIter::new(local_key.distance(target)). An index yielded in ZoomOut whose bit is "
     "set was already yielded by Start/ZoomIn, so a stored node is returned twice.")
+EXPLANATION += (" Added while testing: R2 requires every initial state of ClosestBucketsIter to be Start; R3 requires the cap of nodes_by_distances to compare the returned vector's length with max_nodes and to be passed between any two additions; R4 requires apply_pending to dominate the read of a bucket in ClosestIter::next and the predicate flag to be predicate(value) of the node yielded.")
 NOT_DECIDED = ["that the concatenation over all buckets equals the sorted full scan (needs the XOR-metric argument)",
                "the cap arithmetic of nodes_by_distances", "match flags of the predicate variant beyond sharing the iterator"]
 TRUSTED = ["slice::sort_by sorts by the comparator; U256::bit / leading_zeros (uint crate)"]
